@@ -33,6 +33,8 @@ type hist struct {
 	Universe []gen.P    `json:"universe"`
 	Shapes   []rig.Attr `json:"shapes"`
 	Ops      []op       `json:"ops"`
+	// Cursor != 0: the identifier allocation cursor starts here (verif hook), a few steps before the 32 bit wrap
+	Cursor uint32 `json:"cursor,omitempty"`
 }
 
 // shapes: index 0 is the base; 1..3 differ from it only in attributes the identifier hash does not cover;
@@ -58,9 +60,11 @@ func genShapes(rng *rand.Rand) ([]rig.Attr, []string) {
 		a.Unknown = []rig.Unk{{Optional: true, Transitive: true, Type: 222, Value: []byte{1, 2, 3}}}
 	})
 	add("atomic-aggregate", func(a *rig.Attr) { a.AtomicAgg = true; a.Aggregator = &[2]uint32{0x0A090909, 64999} })
-	add("med", func(a *rig.Attr) { a.MED += 7 })
-	add("nexthop", func(a *rig.Attr) { a.NextHop = 0xC6336409 })
-	add("communities", func(a *rig.Attr) { a.Comms = append(a.Comms, 65000<<16|6) })
+	// three of the shapes were themselves learned with add-path: they arrive with a path identifier of the
+	// upstream's numbering (two of them with the same one), which must not show up on the way out
+	add("med", func(a *rig.Attr) { a.MED += 7; a.PathID = 1 })
+	add("nexthop", func(a *rig.Attr) { a.NextHop = 0xC6336409; a.PathID = 7 })
+	add("communities", func(a *rig.Attr) { a.Comms = append(a.Comms, 65000<<16|6); a.PathID = 1 })
 	add("other-neighbour", func(a *rig.Attr) {
 		o := rig.Sources[1-indexOf(src)]
 		a.Source, a.BGPID, a.NextHop = o.IP, o.BGPID, o.IP
@@ -96,6 +100,9 @@ func genHist(rng *rand.Rand, nops int) hist {
 	if h.Sess.IBGP() {
 		h.Sess.PeerASN = rig.DefaultLocal.ASN
 	}
+	if rng.IntN(3) == 0 {
+		h.Cursor = ^uint32(0) - uint32(rng.IntN(4))
+	}
 	present := map[[2]int]bool{}
 	// bias towards few shapes so that identifiers are shared between prefixes and released in every order
 	hot := []int{0, 0, 0, 1, 2, 3, 4, 5, 6, 7}
@@ -127,7 +134,7 @@ func genHist(rng *rand.Rand, nops int) hist {
 
 type stats struct {
 	ops, dumps, pairs, withdrawals, opWithdrawals, sharedReleases, maxInUse int
-	sharedID, unhashedPair                                                  bool
+	sharedID, unhashedPair, wrapped                                         bool
 }
 
 type result struct {
@@ -167,6 +174,10 @@ func runHist(h hist) (res result) {
 	}
 	rg := rig.New(rig.DefaultLocal, h.Universe[0].V4)
 	out := rg.NewOut(h.Sess, rig.AcceptAll())
+	if h.Cursor != 0 {
+		out.Table.VerifSetPathIDCursor(h.Cursor)
+		st.wrapped = true
+	}
 	bio := make([]*bnet.Prefix, len(h.Universe))
 	for i, p := range h.Universe {
 		bio[i] = p.Bio()
@@ -362,7 +373,7 @@ var (
 
 func main() {
 	vf.Main("C11", "exploration", func(r *vf.Run) {
-		r.Rule("PRNG add/remove histories (80 operations) on one add-path Adj-RIB-Out over 6 prefixes with 8 path shapes learned from eBGP neighbours: a base shape, three that differ from it only in attributes the identifier hash does not cover (OTC, an unknown attribute, ATOMIC_AGGREGATE/AGGREGATOR), four that differ in hashed attributes (MED, next hop, communities, other neighbour); no per-path marker, so one shape on several prefixes is attribute-identical and shares its identifier, and shared identifiers are released in every order; 70% iBGP sessions (paths exported unchanged), the rest eBGP, RS-client and RR-client sessions. distinct_nontrivial = histories in which an identifier was shared by several prefixes while a path was withdrawn and a prefix held two paths that differ only in un-hashed attributes")
+		r.Rule("PRNG add/remove histories (80 operations) on one add-path Adj-RIB-Out over 6 prefixes with 8 path shapes learned from eBGP neighbours: a base shape, three that differ from it only in attributes the identifier hash does not cover (OTC, an unknown attribute, ATOMIC_AGGREGATE/AGGREGATOR), four that differ in hashed attributes (MED, next hop, communities, other neighbour), three of which arrive with a path identifier of their upstream's numbering (two with the same one); in a third of the histories the allocation cursor starts 0-3 steps before the 32 bit wrap-around (verif hook); no per-path marker, so one shape on several prefixes is attribute-identical and shares its identifier, and shared identifiers are released in every order; 70% iBGP sessions (paths exported unchanged), the rest eBGP, RS-client and RR-client sessions. distinct_nontrivial = histories in which an identifier was shared by several prefixes while a path was withdrawn and a prefix held two paths that differ only in un-hashed attributes")
 		r.Assume("the Adj-RIB-Out is driven with the calls the Loc-RIB makes (AddPath/RemovePath with the Loc-RIB's own path object content)", "a (prefix, path) pair is added at most once before it is removed")
 		_, replay := r.Replaying()
 		hg := rig.NewHangGuard(replay)
@@ -410,6 +421,9 @@ func main() {
 			r.Count("withdrawals_checked", st.withdrawals)
 			r.Count("withdrawals_matched_to_the_removed_path", st.opWithdrawals)
 			r.Count("withdrawals_while_identifier_shared", st.sharedReleases)
+			if st.wrapped {
+				r.Count("histories_crossing_the_identifier_wrap_around", 1)
+			}
 			mu.Lock()
 			if st.maxInUse > maxInUse {
 				maxInUse = st.maxInUse
